@@ -1,5 +1,6 @@
 import Varint.Lemmas.Bitstream
 import Varint.Bridge.Bits
+import Varint.Bridge.BitsSigned
 import Varint.Lemmas.External
 /-
   C11 — bitstream writes are exact and isolated.
@@ -88,5 +89,30 @@ theorem c_bits_outside (i o n v : Nat) (ws : List Nat) (hws : ∀ w ∈ ws, w < 
 example : InRange 32 0 24 12 [0, 0, 0, 0] := by unfold InRange; decide
 example : get 32 (set 32 (set 32 [0, 0, 0, 0] 12 12 3000) 24 12 1500) 12 12 = 3000 := by decide
 example : get 64 (set 64 [0, 0] 50 40 0xABCDEF1234) 50 40 = 0xABCDEF1234 := by decide
+
+
+/-- **the signed helpers on the translated macros** (`_varintBitstreamPrepareSigned` / `_varintBitstreamRestoreSigned`,
+    expanded from the CURRENT header): for every field width 2..63 and every negative value whose magnitude fits the
+    field's n-1 value bits, the prepared value fits n bits and restoring it gives the value back; a stored value whose
+    sign bit is clear is restored unchanged -/
+theorem c_bits_signed_roundtrip (n : Nat) (h2 : 2 ≤ n) (h63 : n ≤ 63) (s : Int) (hneg : s < 0)
+    (hlo : -(2 ^ (n - 1) : Int) < s) :
+    Varint.Gen.C.bitsPrepareSigned s n < 2 ^ n ∧
+    Varint.Gen.C.bitsRestoreSigned (Varint.Gen.C.bitsPrepareSigned s n) n = s ∧
+    (∀ r, r < 2 ^ (n - 1) → Varint.Gen.C.bitsRestoreSigned r n = (r : Int)) := by
+  have hcast : ((2 ^ (n - 1) : Nat) : Int) = (2 ^ (n - 1) : Int) := by simp
+  have hpos : 0 < 2 ^ (n - 1) := Nat.two_pow_pos _
+  have hmag : (-s).toNat < 2 ^ (n - 1) := by omega
+  obtain ⟨m1, m2⟩ := bits_signed_roundtrip n h2 s hlo (by omega)
+  rw [Varint.Bridge.BitsSigned.bitsPrepareSigned_eq s n h2 h63 hneg hmag]
+  refine ⟨m2, ?_, ?_⟩
+  · rw [Varint.Bridge.BitsSigned.bitsRestoreSigned_eq _ n h2 h63 m2]; exact m1
+  · intro r hr
+    have hpn : 2 ^ (n - 1) < 2 ^ n := Nat.pow_lt_pow_right (by omega) (by omega)
+    rw [Varint.Bridge.BitsSigned.bitsRestoreSigned_eq r n h2 h63 (by omega)]
+    unfold Bitstream.restoreSigned
+    have : r / 2 ^ (n - 1) = 0 := Nat.div_eq_of_lt hr
+    rw [this]
+    simp
 
 end Varint.Props.C11
